@@ -186,6 +186,7 @@ def stream_c(ctx, nv, nops):
 
 def run(ctx):
     q = ctx.quick
+    gen.reuse_scenarios(ctx, 'C01:wrong-function', 'C01', reps=12 if q else 150)
     for order in gen.orders(3):
         for aged in (False, True):
             stream_a(ctx, order, aged, npairs=3 if q else 20, ntriples=6 if q else 60)
